@@ -299,7 +299,7 @@ func (h *engHist) seriesObs(tag string) {
 	}
 }
 
-func runEngineHistory(c *hx.Ctx, r *hx.Rng, idx int) error {
+func runEngineHistory(c *hx.Ctx, r *hx.Rng, idx int, prelude bool) error {
 	h := &engHist{c: c, r: r, idx: idx, dir: engx.ScratchDir("c13eng"), next: 1, rows: map[uint64]map[string]string{},
 		series: map[uint64]map[string]bool{}, memDel: map[string]bool{}, diskDel: map[string]bool{}, fin: map[uint64]func() error{}, stopped: map[uint64]bool{}}
 	engine.VerifSlotBase = engx.BaseTime
@@ -353,14 +353,39 @@ func runEngineHistory(c *hx.Ctx, r *hx.Rng, idx int) error {
 	type forcedOp struct {
 		p     int
 		shard *engine.VerifEngineShard
+		mst   string // for a write / a drop series: the measurement and the series (mst == "": random)
+		ser   int
+		last  bool // the shard is the youngest live shard of shard's policy
 	}
 	var forced []forcedOp
+	if prelude {
+		// every other engine history starts with a policy that has two indexes holding the same series: both are
+		// written, one series is dropped from both, a merger takes the parts of the younger index, the drop-series
+		// task runs (refused for the policy as a whole), the merge ends, the task runs again, the store restarts
+		mk("db0", "rp0")
+		a, b := h.live[0], h.live[len(h.live)-1]
+		forced = []forcedOp{{p: 10, shard: &a, mst: "m", ser: 0}, {p: 10, shard: &b, mst: "m", ser: 0}, {p: 10, shard: &a, mst: "m", ser: 1},
+			{p: 10, shard: &b, mst: "m", ser: 1}, {p: 72, shard: &a, mst: "m", ser: 0},
+			{p: 80, shard: &b}, {p: 90}, {p: 85}, {p: 90}, {p: 99},
+			// ... and a third shard of the policy is made after the restart (its index is younger than the policy's
+			// deleted-tsid index), written, and one of its series dropped
+			{p: 60, shard: &a}, {p: 10, shard: &a, mst: "m", ser: 1, last: true}, {p: 10, shard: &a, mst: "m", ser: 2, last: true},
+			{p: 72, shard: &a, mst: "m", ser: 1}}
+		c.Count("engine-history:two-index-policy-prelude")
+	}
 	for i := 0; i < nOps || len(forced) > 0; i++ {
 		tag := ""
 		p := r.Intn(100)
 		var pick *engine.VerifEngineShard
+		pickMst, pickSer := "", 0
 		if len(forced) > 0 {
-			p, pick = forced[0].p, forced[0].shard
+			p, pick, pickMst, pickSer = forced[0].p, forced[0].shard, forced[0].mst, forced[0].ser
+			if forced[0].last && pick != nil {
+				if l := h.liveOf(pick.DB, pick.RP); len(l) > 0 {
+					y := l[len(l)-1]
+					pick = &y
+				}
+			}
 			forced = forced[1:]
 		} else if p >= 70 && p < 94 && len(h.fin) == 0 && r.Chance(60) {
 			// the purge meets a merge: in a policy whose deleted set is not empty (preferably one with
@@ -380,7 +405,7 @@ func runEngineHistory(c *hx.Ctx, r *hx.Rng, idx int) error {
 			}
 			if len(cands) > 0 {
 				s := cands[r.Intn(len(cands))]
-				forced = []forcedOp{{80, &s}, {90, nil}, {85, nil}, {90, nil}, {99, nil}}
+				forced = []forcedOp{{p: 80, shard: &s}, {p: 90}, {p: 85}, {p: 90}, {p: 99}}
 				c.Count("engine-history:purge-meets-merge")
 				if len(multi) > 0 {
 					c.Count("engine-history:purge-meets-merge-in-a-policy-with-several-indexes")
@@ -392,7 +417,13 @@ func runEngineHistory(c *hx.Ctx, r *hx.Rng, idx int) error {
 		case p < 30 && len(h.live) > 0:
 			s := h.live[r.Intn(len(h.live))]
 			mst := []string{"m", "n"}[r.Intn(2)]
+			if pick != nil && h.isLive(pick.ShardID) {
+				s = *pick
+			}
 			ser, t, v := r.Intn(3), 3*(s.Slot-1)+r.Intn(3), r.Intn(100)
+			if pickMst != "" {
+				mst, ser = pickMst, pickSer
+			}
 			row := engx.Row{Mst: mst, Series: ser, T: t, Fields: map[string]string{"fi": fmt.Sprint(v)}}
 			if h.emit(fmt.Sprintf("ewrite %d %s %d %d %d", s.ShardID, mst, ser, t, v), func() error { return h.e.Write(s, engx.ToInflux([]engx.Row{row})) }) == "ok" {
 				h.rows[s.ShardID][fmt.Sprintf("%s|%d|%d", mst, ser, t)] = fmt.Sprint(v)
@@ -465,6 +496,9 @@ func runEngineHistory(c *hx.Ctx, r *hx.Rng, idx int) error {
 		case p < 65:
 			// a policy (or database) that has no shard gets one: created again after a drop, or new
 			db, rp := dbs[r.Intn(2)], rps[r.Intn(2)]
+			if pick != nil {
+				db, rp = pick.DB, pick.RP
+			}
 			if len(h.liveOf(db, rp)) >= 3 {
 				continue
 			}
@@ -474,11 +508,14 @@ func runEngineHistory(c *hx.Ctx, r *hx.Rng, idx int) error {
 			// DROP SERIES FROM mst WHERE host = ... on a database: every shard's index is searched, the tsids go
 			// to the deleted-tsid index of the shard's policy; then the index flush interval passes
 			db := dbs[r.Intn(2)]
+			mst := []string{"m", "n"}[r.Intn(2)]
+			ser := r.Intn(3)
+			if pickMst != "" && pick != nil {
+				db, mst, ser = pick.DB, pickMst, pickSer
+			}
 			if len(h.liveOf(db, "")) == 0 {
 				continue
 			}
-			mst := []string{"m", "n"}[r.Intn(2)]
-			ser := r.Intn(3)
 			// rows of a dropped series that are still only in the memtable / WAL come back at the next
 			// start (known finding unflushed_rows_then_crash): these histories flush first
 			h.emit("eflush", func() error { h.e.Flush(); return nil })
